@@ -42,10 +42,22 @@ def main():
     if a.replay:
         with open(a.replay) as fh:
             rec = json.load(fh)
-        try:
-            v = runner.run_single(prop, rec["sub"], rec["case"])
-        except runner.HarnessError as e:
-            print(f"HARNESS-ERROR {e}", file=sys.stderr)
+        runner._PROP = prop
+
+        def one():
+            try:
+                return ("v", runner.run_single(prop, rec["sub"], rec["case"]))
+            except runner.HarnessError as e:
+                return ("h", str(e))
+
+        r = runner.run_isolated([one], 1, float(os.environ.get("VF_TASK_TIMEOUT", "5400")))[0]
+        if r[0] == "died":
+            v = {"kind": f"crash:process-killed:{runner._signal_name(r[1])}",
+                 "message": "the process evaluating this case was killed inside the library or a compiled routine"}
+        elif r[0] == "ok" and r[1][0] == "v":
+            v = r[1][1]
+        else:
+            print(f"HARNESS-ERROR {r[1] if r[0] != 'ok' else r[1][1]}", file=sys.stderr)
             return 2
         if v is None:
             print(f"replay passes: {a.replay}", file=sys.stderr)
